@@ -203,7 +203,7 @@ func capLen(max int64) int64 {
 
 // materialLimit: an index above it is not built (the list would have to be
 // allocated); such cases only exist for the huge boundary values of MaxIdx.
-func materialLimit() int64 { return int64(runlog.Pick(1025, 5001)) }
+func materialLimit() int64 { return 1025 }
 
 var boundaryCaps = []int64{math.MaxInt64, math.MaxInt32, math.MaxInt64 - 1, math.MaxInt32 + 1, math.MaxInt32 - 1, 1 << 62, math.MaxUint32, 1 << 31}
 
